@@ -470,14 +470,14 @@ class PhyBo(Wordlist):
         nodes = [t.Name for t in tree.tips()]
         log.debug("Nodes are {0}.".format(','.join(nodes)))
 
-        if mode == 1:
-            return [(tree.Name, 1)]
-
         # store the scenario
         scenario = []
 
         # make the queue
         queue = [[tree, 1]]
+
+        if mode == 1:
+            scenario, queue = [(tree.Name, 1)], []
         while queue:
             # get tree and counter from queue
             tmp_tree, counter = queue.pop(0)
